@@ -879,8 +879,8 @@ def result_handed_on(body, operand, producer, allow_part=False, _pending=None, _
                 pending = pending[1:]
                 o = rv["ops"][0]
                 continue
-            if kind == "field" and rv.get("tuple") and what < len(rv["ops"]):
-                pending = pending[1:]
+            if kind == "field" and (rv.get("tuple") or rv.get("closure")) and what < len(rv["ops"]):
+                pending = pending[1:]  # a tuple taken apart again, or a value captured by a closure that was spliced in
                 o = rv["ops"][what]
                 continue
         return False, "it is computed (%s), not moved on" % rv["k"]
@@ -910,7 +910,155 @@ def _handed_assign(body, d, producer, pending, allow_part, seen, depth):
         if rv["variant"] != what and not (what == "Continue" and rv["variant"] == "Ok"):
             return True, None
         return result_handed_on(body, rv["ops"][0], producer, allow_part, pending[1:], seen, depth + 1)
+    if rv["k"] == "aggregate" and pending and pending[0][0] == "field" and (rv.get("tuple") or rv.get("closure")) and pending[0][1] < len(rv["ops"]):
+        return result_handed_on(body, rv["ops"][pending[0][1]], producer, allow_part, pending[1:], seen, depth + 1)
     return False, "one of its sources is computed (%s)" % rv["k"]
+
+
+def _is_u8_widening(body, o):
+    """operand = `<u8 value> as char` / `char::from(<u8>)`; returns the u8 operand or None"""
+    od = body.origin_def(o)
+    if not (od and od[0] == "def"):
+        return None
+    d = od[1]
+    if d["kind"] == "assign" and d["stmt"]["rv"]["k"] == "cast" and "IntToInt" in d["stmt"]["rv"]["kind"] and d["stmt"]["rv"].get("ty") == "char":
+        src = d["stmt"]["rv"]["op"]
+        pl = op_place(src)
+        if pl is not None and not [e for e in pl["proj"] if e != "deref"] and body.local_ty(pl["local"]).lstrip("&") == "u8":
+            return src
+        return None
+    if d["kind"] == "call" and re.search(r"<char as std::convert::From<u8>>::from$|impl std::convert::From<u8> for char>::from$", d["term"].get("resolved_full", "")):
+        return d["term"]["args"][0]
+    return None
+
+
+def latin1_problems(body):
+    """Why `latin1_to_string` is not `bytes.iter().map(|&b| b as char).collect()` (empty list: it is). Two accepted
+    forms: a push loop over the whole slice, or that map/collect pipeline. Anything else that can reach the return value
+    - a fast path returning the bytes decoded as UTF-8, a lossy conversion, a filter - gives another string for some
+    byte sequence (well-formed UTF-8 above 0x7F)."""
+    probs = []
+    inp = 1
+    bad = body.calls(r"from_utf8\w*$|char::from_u32\w*$|decode_utf16$|encoding::|String::(push_str|insert\w*|extend\w*|from)$|to_owned$|ToString::to_string$|str>::(to_string|to_owned|into)$")
+    if bad:
+        probs.append("it calls `%s`: part of the result is not a byte-by-byte widening" % bad[0][1]["callee"].split("::")[-1])
+    d0 = [d for d in body.defs().get(0, [])]
+    if len(d0) != 1:
+        probs.append("the return value has %d sources" % len(d0))
+        return probs
+    acc = returned_local(body)
+    if acc:
+        ds = body.defs().get(acc, [])
+        inits = [d for d in ds if d["kind"] == "call"]
+        muts = [d for d in ds if d["kind"] == "mutcall"]
+        if len(inits) != 1 or not re.search(r"String::(new|with_capacity)$", inits[0]["term"]["callee"]) or [d for d in ds if d["kind"] == "assign"]:
+            probs.append("the result is not a String started empty")
+        pushes = [d for d in muts if re.search(r"String::push$", d["term"]["callee"])]
+        other = [d for d in muts if d not in pushes and not re.search(r"String::(reserve\w*|shrink_to\w*)$", d["term"]["callee"])]
+        if other:
+            probs.append("the result is also written through `%s`" % other[0]["term"]["callee"].split("::")[-1])
+        if len(pushes) != 1:
+            probs.append("%d push sites (expected one)" % len(pushes))
+            return probs
+        pd = pushes[0]
+        src = _is_u8_widening(body, pd["term"]["args"][1])
+        if src is None:
+            probs.append("the character pushed is not `byte as char`")
+            return probs
+        sl = body.slice_op(src)
+        nx = [(nb, nt) for nb, nt in sl.find_calls(r"Iterator::next$")]
+        if len(nx) != 1 or inp not in sl.locals:
+            probs.append("the byte pushed is not the element of one iteration over the input")
+            return probs
+        stages = [c for c in sl.callee_names() if not re.search(r"Iterator::next$|IntoIterator::into_iter$|slice::<impl \[T\]>::iter$|Iterator::copied$|Iterator::cloned$|Deref::deref$|AsRef::as_ref$", c)]
+        if stages:
+            probs.append("the bytes pass through %s before they are widened" % [c.split("::")[-1] for c in stages][:3])
+        st = body.term(nx[0][1]["target"])
+        some = [bb for v, bb in st["targets"] if v == 1] if st["k"] == "switch" else []
+        if not some or not body.postdominates(pd["block"], some[0]):
+            probs.append("not every byte is pushed (the push does not post-dominate the iteration's Some edge)")
+        # no way from the loop to the return that skips bytes: the only exit of the loop is the None edge
+        none = [bb for v, bb in st["targets"] if v == 0] if st["k"] == "switch" else []
+        for rb in body.return_blocks():
+            if none and not body.dominates(none[0], rb):
+                probs.append("a return is reachable without the iteration having ended")
+        for bi in sorted(body.live_blocks()):
+            if body.term(bi)["k"] == "switch" and bi != nx[0][1]["target"]:
+                probs.append("an extra condition (block %d) decides what is produced" % bi)
+                break
+        return probs
+    # pipeline form
+    cs = [d for d in d0 if d["kind"] == "call" and re.search(r"Iterator::collect$|FromIterator::from_iter$", d["term"]["callee"])]
+    if not cs:
+        probs.append("the result is neither a pushed String nor a collected iterator")
+        return probs
+    src, stages = pipeline_of(body, cs[0]["term"]["args"][0])
+    names = [x[0] for x in stages if x[0] not in ("into_iter", "iter", "copied", "cloned")]
+    if names != ["map"]:
+        probs.append("pipeline stages %s (expected exactly map)" % names)
+        return probs
+    t = [x for x in stages if x[0] == "map"][0][2]
+    fnitem = (op_const(t["args"][1]) or {}).get("repr", "") if len(t["args"]) > 1 else ""
+    if fnitem == "<char as std::convert::From<u8>>::from":
+        pass  # `.map(char::from)`
+    elif "summary_operand" not in t or _is_u8_widening(body, t["args"][t["summary_operand"]]) is None:
+        probs.append("the mapping closure is not `|b| b as char`")
+    if inp not in body.slice_op(cs[0]["term"]["args"][0]).locals:
+        probs.append("the pipeline does not run over the input")
+    return probs
+
+
+def success_edge_of(body, producer):
+    """Block entered when the (possibly awaited) result of the call matching `producer` is Ok: the Continue edge of the
+    `?` applied to it, or the Ok arm of a `match` / `if let` on it. None if the result is consumed in another way."""
+    pcs = body.calls(producer)
+    if len(pcs) != 1:
+        return None
+    pb = pcs[0][0]
+    for bi, t in body.calls(r"Try::branch$"):
+        if body.dominates(pb, bi) and body.slice_op(t["args"][0], stop_at_calls=lambda t_: bool(re.search(producer, t_.get("callee", "")))).has_call(producer):
+            st = body.term(t["target"])
+            if st["k"] == "switch":
+                cont = [bb for v, bb in st["targets"] if v == 0]
+                if cont:
+                    return cont[0]
+    for a in sorted(body.live_blocks()):
+        st = body.term(a)
+        if st["k"] != "switch" or not body.dominates(pb, a):
+            continue
+        c = body.cond_of_switch(a)
+        if not c or c["kind"] != "discr":
+            continue
+        l = c["place"]["local"]
+        if c["place"]["proj"] or not re.match(r"^std::result::Result<", body.local_ty(l) or ""):
+            continue
+        if not body.slice([l], stop_at_calls=lambda t_: bool(re.search(producer, t_.get("callee", "")))).has_call(producer):
+            continue
+        ok = [bb for v, bb in st["targets"] if v == 0]
+        if ok:
+            return ok[0]
+    return None
+
+
+def propagated_error_kinds(body):
+    """`Err(e.into())` / `Err(From::from(e))` / `Err(e)` where e is the Err payload of another Result: the hand-written
+    form of `?`. Returns ([(block, source error type)], [other Err constructions])."""
+    prop, other = [], []
+    for eb, i, s in result_aggs(body, "Err"):
+        o = s["rv"]["ops"][0]
+        ty = None
+        for _ in range(4):
+            od = body.origin_def(o, through_refs=False)
+            if od and od[0] == "def" and od[1]["kind"] == "call" and re.search(r"convert::(Into::into|From::from)$", od[1]["term"]["callee"]):
+                o = od[1]["term"]["args"][0]
+                continue
+            if od and od[0] == "place":
+                fs = [e for e in od[1]["proj"] if isinstance(e, dict)]
+                if len(fs) == 2 and fs[0].get("downcast") == "Err" and fs[1].get("idx") == 0:
+                    ty = fs[1].get("ty")
+            break
+        (prop if ty else other).append((eb, ty) if ty else (eb, i, s))
+    return prop, other
 
 
 # calls that change a text / byte string's content (as opposed to re-typing, borrowing, copying, concatenating it)
